@@ -424,7 +424,7 @@ def lexical_input(rng):
     attrs = ""
     for _ in range(rng.choice([0, 1, 1, 2, 3])):
         an = rng.choice(["title", "class", "href", "xlink:href", "xml:lang", "xmlns:xlink", "disabled", "checked", "data-x", "a\"b", "a'b", "a<b", "=x", "{x}y", "viewBox", "definitionurl", "irrelevant", "x:y"])
-        av = junk(3).replace("\"", "&quot;").replace("&", "&amp;") if rng.random() < 0.8 else rng.choice(["", an, "a b", "a/"])
+        av = junk(3).replace("&", "&amp;").replace("\"", "&quot;") if rng.random() < 0.8 else rng.choice(["", an, "a b", "a/", "a'b\"c".replace("\"", "&quot;")])
         attrs += " %s=\"%s\"" % (an, av)
     first = el.split(">")[0]
     rest = el[len(first):]
